@@ -221,7 +221,7 @@ func (p *Processor) ChargingDataCreate(
 		self.Unlock()
 		// SUPI, consumer name and counter are delimited: creates for different subscribers may read the same
 		// counter value, so the reference must not depend on where the SUPI ends and the name begins either
-		chargingSessionId = ueId + "-" + consumerId + "-" + strconv.Itoa(int(recordSeq))
+		chargingSessionId = ueId + "-" + consumerId + "-" + strconv.FormatUint(recordSeq, 10)
 	}
 	cdr, err := p.OpenCDR(chargingData, ue, chargingSessionId, false)
 	if err != nil {
